@@ -43,6 +43,7 @@ Logger *Logger::instance()
 QTLOGGER_DECL_SPEC
 Logger::~Logger()
 {
+    QTLOGGER_VERIF_POINT("logger.dtor");
 #ifndef QTLOGGER_NO_THREAD
     g_activeLogger.testAndSetOrdered(this, nullptr);
 #else
@@ -86,12 +87,15 @@ QTLOGGER_DECL_SPEC
 void Logger::processMessage(QtMsgType type, const QMessageLogContext &context,
                             const QString &message)
 {
+    QTLOGGER_VERIF_POINT("logger.pm.before_lock");
 #ifndef QTLOGGER_NO_THREAD
     QMutexLocker locker(mutex());
 #endif
+    QTLOGGER_VERIF_POINT("logger.pm.locked");
 
     LogMessage lmsg(type, context, message);
     process(lmsg);
+    QTLOGGER_VERIF_POINT("logger.pm.processed");
 }
 
 QTLOGGER_DECL_SPEC
@@ -107,6 +111,7 @@ void Logger::messageHandler(QtMsgType type, const QMessageLogContext &context,
     if (!logger)
         return;
 
+    QTLOGGER_VERIF_POINT("logger.handler.loaded");
     logger->processMessage(type, context, message);
 }
 
